@@ -26,6 +26,7 @@ type Case struct {
 	Dialect string `json:"dialect"` // mysql | postgres
 	Mode    int    `json:"mode"`    // migrate.PlanMode: 0 unset, 1 in-place, 2 deferred, 3 dump
 	Multi   bool   `json:"multi"`   // a second, two-column FK per edge (random tier)
+	Names   int    `json:"names"`   // 0: FK named after its edge (a re-pointed FK is drop+add); 1: named after its table and slot (the n-th FK of a table keeps its name when it points elsewhere: ModifyForeignKey)
 }
 
 const (
@@ -36,11 +37,31 @@ const (
 
 func tname(i int) string { return fmt.Sprintf("t%d", i) }
 
-func fkname(e Edge, multi bool) string {
-	if multi {
-		return fmt.Sprintf("fk2_%d_%d", e.From, e.To)
+// namer returns the FK naming function for one side (current or desired) of a case.
+func (c Case) namer(edges []Edge) func(e Edge, multi bool) string {
+	slot := map[Edge]int{}
+	if c.Names == 1 {
+		byFrom := map[int][]int{}
+		for _, e := range edges {
+			byFrom[e.From] = append(byFrom[e.From], e.To)
+		}
+		for f, tos := range byFrom {
+			sort.Ints(tos)
+			for k, to := range tos {
+				slot[Edge{f, to}] = k
+			}
+		}
 	}
-	return fmt.Sprintf("fk_%d_%d", e.From, e.To)
+	return func(e Edge, multi bool) string {
+		p := "fk"
+		if multi {
+			p = "fk2"
+		}
+		if c.Names == 1 {
+			return fmt.Sprintf("%s_%d_s%d", p, e.From, slot[e])
+		}
+		return fmt.Sprintf("%s_%d_%d", p, e.From, e.To)
+	}
 }
 
 // build creates the schema graph holding the given tables and FK edges. Every table has the same columns
@@ -67,6 +88,7 @@ func build(c Case, tables []int, edges []Edge) *schema.Schema {
 		s.AddTables(t)
 		byI[i] = t
 	}
+	fkname := c.namer(edges)
 	for _, e := range edges {
 		t, ref := byI[e.From], byI[e.To]
 		col, _ := t.Column(fmt.Sprintf("r%d", e.To))
@@ -112,6 +134,7 @@ func newCatalogue(c Case, tables []int, edges []Edge) *catalogue {
 	for _, i := range tables {
 		cat.tables[tname(i)] = true
 	}
+	fkname := c.namer(edges)
 	for _, e := range edges {
 		cat.fks[tname(e.From)+"."+fkname(e, false)] = fkRef{tname(e.From), tname(e.To)}
 		if c.Multi && (e.From+e.To)%2 == 0 {
